@@ -4,6 +4,12 @@ NOTES = ("All checks: bin/check <ID> --tier quick|thorough. Exit 0 held / 1 VIOL
          "Specification in spec/, harness in harness/, known findings in known_findings.jsonl; see DESIGN.md.")
 NOT_APPLICABLE = {}
 CHECKS = {
+    "C14": {
+        "level": "model_checking",
+        "technique": "TLA+ Lists spec as a machine (abstract list = items, separator incl. 'undecided', brackets; actions append/join/left-join/set-nth with every option; TLC enumerates all operation chains, MC_Lists) and Strings spec over code-point labels (slice/index/insert by the documented index arithmetic; TLC checks slice/insert laws and enumerates all strings x calls x indices, MC_Strings); grass evaluates every call through the global and the sass:list / sass:string spellings; plus a table of nested-key map functions and argument-validation errors",
+        "text": "Every chain of <= 2 (thorough 3) list operations from 10 starting lists is observed through inspect, length, list-separator, is-bracketed, nth at six indices and index; every string of <= 3 (thorough 4) code points over ASCII, two-byte, astral and combining characters through str-length, str-slice (81 index pairs), str-index and str-insert; both spellings of every function must give the specification's value or error.",
+        "note": "Map built-ins are covered by a fixed table (and by C09's machine); zip/quote/case functions by table entries only; one entry left open (map.deep-remove with a missing leading key).",
+    },
     "C09": {
         "level": "model_checking",
         "technique": "TLA+ MapMachine spec: equality as classes of 45 representative values (TLC checks reflexive/symmetric/transitive once) and the map as a machine over association sequences (set/remove/merge/nested set/deep-merge) whose reachable states TLC checks for unique keys and order preservation at every step; TLC enumerates all ordered pairs (MC_Equality) and all operation sequences up to a bound (MC_Maps); grass evaluates each probe program; results compared with the specification",
